@@ -8,6 +8,7 @@ import (
 	"github.com/hashicorp/hcl/v2/ext/dynblock"
 	"github.com/hashicorp/hcl/v2/hcldec"
 	"github.com/hashicorp/hcl/v2/hclsyntax"
+	hcljson "github.com/hashicorp/hcl/v2/json"
 	"github.com/zclconf/go-cty/cty"
 
 	"verif/engine"
@@ -24,23 +25,24 @@ type BodyCase struct {
 	Var  string `json:"var"`
 }
 
-const bodyRule = "bodies: 32 body templates (attributes, static blocks with and without labels, dynamic blocks whose for_each / labels / content / iterator use the marked variable, static and dynamic blocks nested in dynamic content) x 5 marked variables x every hcldec block spec kind (Attr, Block, BlockList, BlockSet, BlockTuple, BlockMap, BlockObject, BlockAttrs; nested block specs one level down) x all pairs of contents incl. unknown; decoded with dynblock.Expand + hcldec.Decode"
+const bodyRule = "bodies: 41 body templates (32 native, 9 JSON) (attributes, static blocks with and without labels, dynamic blocks whose for_each / labels / content / iterator use the marked variable, static and dynamic blocks nested in dynamic content) x 5 marked variables x every hcldec block spec kind (Attr, Block, BlockList, BlockSet, BlockTuple, BlockMap, BlockObject, BlockAttrs; nested block specs one level down) x all pairs of contents incl. unknown; decoded with dynblock.Expand + hcldec.Decode, and in two steps (hcldec.PartialDecode of an unrelated attribute, then Decode of the remaining body); contents include typed nulls (DefaultSpec)"
 
 var attrA = &hcldec.AttrSpec{Name: "a", Type: cty.DynamicPseudoType}
 
 func nestedSpecs() map[string]hcldec.Spec {
 	inner := hcldec.ObjectSpec{"a": attrA}
 	out := map[string]hcldec.Spec{
-		"attr":   hcldec.ObjectSpec{"a": attrA},
-		"block":  hcldec.ObjectSpec{"b": &hcldec.BlockSpec{TypeName: "b", Nested: inner}},
-		"list":   hcldec.ObjectSpec{"b": &hcldec.BlockListSpec{TypeName: "b", Nested: inner}},
-		"set":    hcldec.ObjectSpec{"b": &hcldec.BlockSetSpec{TypeName: "b", Nested: inner}},
-		"tuple":  hcldec.ObjectSpec{"b": &hcldec.BlockTupleSpec{TypeName: "b", Nested: inner}},
+		"attr":  hcldec.ObjectSpec{"a": attrA},
+		"block": hcldec.ObjectSpec{"b": &hcldec.BlockSpec{TypeName: "b", Nested: inner}},
+		"list":  hcldec.ObjectSpec{"b": &hcldec.BlockListSpec{TypeName: "b", Nested: inner}},
+		"set":   hcldec.ObjectSpec{"b": &hcldec.BlockSetSpec{TypeName: "b", Nested: inner}},
+		"tuple": hcldec.ObjectSpec{"b": &hcldec.BlockTupleSpec{TypeName: "b", Nested: inner}},
 		// BlockMapSpec documents that dynamically-typed attributes must not be used inside it
-		"map": hcldec.ObjectSpec{"b": &hcldec.BlockMapSpec{TypeName: "b", LabelNames: []string{"k"}, Nested: hcldec.ObjectSpec{"a": &hcldec.AttrSpec{Name: "a", Type: cty.String}}}},
-		"object": hcldec.ObjectSpec{"b": &hcldec.BlockObjectSpec{TypeName: "b", LabelNames: []string{"k"}, Nested: inner}},
-		"attrs":  hcldec.ObjectSpec{"b": &hcldec.BlockAttrsSpec{TypeName: "b", ElementType: cty.String}},
-		"label":  hcldec.ObjectSpec{"b": &hcldec.BlockListSpec{TypeName: "b", Nested: hcldec.ObjectSpec{"a": attrA, "k": &hcldec.BlockLabelSpec{Index: 0, Name: "k"}}}},
+		"map":     hcldec.ObjectSpec{"b": &hcldec.BlockMapSpec{TypeName: "b", LabelNames: []string{"k"}, Nested: hcldec.ObjectSpec{"a": &hcldec.AttrSpec{Name: "a", Type: cty.String}}}},
+		"object":  hcldec.ObjectSpec{"b": &hcldec.BlockObjectSpec{TypeName: "b", LabelNames: []string{"k"}, Nested: inner}},
+		"attrs":   hcldec.ObjectSpec{"b": &hcldec.BlockAttrsSpec{TypeName: "b", ElementType: cty.String}},
+		"default": hcldec.ObjectSpec{"a": &hcldec.DefaultSpec{Primary: &hcldec.AttrSpec{Name: "a", Type: cty.String}, Default: &hcldec.LiteralSpec{Value: cty.StringVal("dflt")}}},
+		"label":   hcldec.ObjectSpec{"b": &hcldec.BlockListSpec{TypeName: "b", Nested: hcldec.ObjectSpec{"a": attrA, "k": &hcldec.BlockLabelSpec{Index: 0, Name: "k"}}}},
 	}
 	// b blocks containing nested c blocks, c decoded with each block spec kind
 	cInner := hcldec.ObjectSpec{"a": attrA}
@@ -67,6 +69,7 @@ type tmpl struct {
 	text   string // X is replaced by the variable name
 	labels bool   // blocks carry one label
 	nested bool   // b contains c blocks
+	json   bool   // JSON syntax
 }
 
 var templates = []tmpl{
@@ -87,6 +90,16 @@ var templates = []tmpl{
 	{text: "dynamic \"b\" {\n  for_each = X\n  labels = [b.key]\n  content {\n    a = 1\n  }\n}\n", labels: true},
 	{text: "dynamic \"b\" {\n  for_each = X ? [1] : []\n  content {\n    a = 1\n  }\n}\n"},
 	{text: "dynamic \"b\" {\n  for_each = X ? [1] : [2]\n  content {\n    a = 1\n  }\n}\n"},
+	// JSON syntax
+	{text: `{"a": "${X}"}`, json: true},
+	{text: `{"a": "p-${X}"}`, json: true},
+	{text: `{"a": {"${X}": 1, "k": 2}}`, json: true},
+	{text: `{"a": ["${X}", 1]}`, json: true},
+	{text: `{"b": {"a": "${X}"}}`, json: true},
+	{text: `{"b": [{"a": "${X}"}, {"a": 1}]}`, json: true},
+	{text: `{"dynamic": {"b": {"for_each": "${X}", "content": {"a": "${b.value}"}}}}`, json: true},
+	{text: `{"dynamic": {"b": {"for_each": "${X}", "content": {"a": 1}}}}`, json: true},
+	{text: `{"dynamic": {"b": {"for_each": "${X}", "content": {}}}}`, json: true},
 	// content that sets no attributes: only the number of blocks depends on the marked value
 	{text: "dynamic \"b\" {\n  for_each = X\n  content {}\n}\n"},
 	{text: "b {}\ndynamic \"b\" {\n  for_each = X\n  content {}\n}\n"},
@@ -142,6 +155,11 @@ func genBodies(tier string, emit func(engine.Case) bool) {
 				if !emit(engine.Case{ID: id, Data: Data{Kind: "body", Family: "body", Src: text, Body: &BodyCase{Text: text, Spec: sn, Var: v}}}) {
 					return
 				}
+				if strings.Contains(text, "dynamic") && (sn == "list" || sn == "tuple" || sn == "block" || sn == "attrs" || sn == "set") {
+					if !emit(engine.Case{ID: id + "/2step", Data: Data{Kind: "body", Family: "body", Src: text, Body: &BodyCase{Text: text, Spec: "2step:" + sn, Var: v}}}) {
+						return
+					}
+				}
 			}
 		}
 	}
@@ -157,11 +175,18 @@ func sortStrings(a []string) {
 
 func judgeBody(d Data) engine.Outcome {
 	bc := d.Body
-	spec, ok := specTable[bc.Spec]
+	twoStep := strings.HasPrefix(bc.Spec, "2step:")
+	spec, ok := specTable[strings.TrimPrefix(bc.Spec, "2step:")]
 	if !ok {
 		return engine.Skip()
 	}
-	f, diags := hclsyntax.ParseConfig([]byte(bc.Text), "t.hcl", hcl.InitialPos)
+	var f *hcl.File
+	var diags hcl.Diagnostics
+	if strings.HasPrefix(bc.Text, "{") {
+		f, diags = hcljson.Parse([]byte(bc.Text), "t.json")
+	} else {
+		f, diags = hclsyntax.ParseConfig([]byte(bc.Text), "t.hcl", hcl.InitialPos)
+	}
 	if diags.HasErrors() {
 		return engine.Skip()
 	}
@@ -169,6 +194,13 @@ func judgeBody(d Data) engine.Outcome {
 	for _, in := range bodyContents[bc.Var] {
 		ctx := &hcl.EvalContext{Variables: pool.WithVar(bc.Var, in.Mark(mark)), Functions: pool.ImplFuncs()}
 		body := dynblock.Expand(f.Body, ctx)
+		if twoStep {
+			// decode an unrelated attribute first and the rest from the remaining body
+			v0, remain, d0 := hcldec.PartialDecode(body, hcldec.ObjectSpec{"zz": &hcldec.AttrSpec{Name: "zz", Type: cty.String}}, ctx)
+			v1, d1 := hcldec.Decode(remain, spec, ctx)
+			runs = append(runs, run{in, cty.TupleVal([]cty.Value{v0, v1}), d0.HasErrors() || d1.HasErrors()})
+			continue
+		}
 		v, dd := hcldec.Decode(body, spec, ctx)
 		runs = append(runs, run{in, v, dd.HasErrors()})
 	}
